@@ -155,7 +155,9 @@ func checkC08(c *Ctx) {
 			if strings.Contains(imp, "govendor") {
 				trailer += ", ctx.Background(), vcfg.Default"
 			}
-			src := canonical("package app\n\n" + imp + "\n" + body + "\nvar _ = []interface{}{" + trailer + "}\n")
+			// ... and a reference to a package-level object of the file's own package (it carries the local
+			// path when Decorator.ResolveLocalPath is set, and is never imported)
+			src := canonical("package app\n\n" + imp + "\n" + body + "\nvar _ = []interface{}{" + trailer + "}\n\nfunc localFn() {}\n\nvar _ = localFn\n")
 			if src != "" {
 				sources = append(sources, src)
 			}
@@ -199,16 +201,30 @@ func checkC08(c *Ctx) {
 		app := &memPkg{Import: "example.com/app", Path: "example.com/app", Files: map[string]string{"x.go": srcs[i]}}
 		u := newUniverse(append(libPackages(), app)...)
 		if _, info, files, err := u.Check("example.com/app"); err == nil {
-			d := decorator.NewDecoratorWithImports(u.fset, "example.com/app", gotypes.New(info.Uses))
-			df, err := d.DecorateFile(files[0])
-			if err == nil {
-				var buf bytes.Buffer
-				if err := decorator.NewRestorerWithImports("example.com/app", simple.New(names)).Fprint(&buf, df); err != nil {
-					c.Fail(Finding{Sig: "transparent-restore-error", Input: key + "|gotypes", What: err.Error(), Replay: obj{"kind": "c08", "src": srcs[i]}})
-				} else if buf.String() != srcs[i] {
-					c.Fail(Finding{Sig: "transparent-bytes-differ", Input: key + "|gotypes", What: "gotypes: " + diffAt(src, buf.Bytes()) + "\nsource:\n" + srcs[i], Replay: obj{"kind": "c08", "src": srcs[i]}})
+			for _, rl := range []bool{false, true} {
+				u2 := u
+				files2, info2 := files, info
+				if rl { // a tree can be decorated once per universe
+					u2 = newUniverse(append(libPackages(), app)...)
+					var err2 error
+					if _, info2, files2, err2 = u2.Check("example.com/app"); err2 != nil {
+						continue
+					}
 				}
-				c.Eval(key+"|gotypes", true)
+				d := decorator.NewDecoratorWithImports(u2.fset, "example.com/app", gotypes.New(info2.Uses))
+				d.ResolveLocalPath = rl
+				df, err := d.DecorateFile(files2[0])
+				if err == nil {
+					mode := fmt.Sprintf("|gotypes local-paths=%v", rl)
+					var buf bytes.Buffer
+					// the restorer's name resolver knows the imported packages only: the local package is never asked for
+					if err := decorator.NewRestorerWithImports("example.com/app", simple.New(names)).Fprint(&buf, df); err != nil {
+						c.Fail(Finding{Sig: "transparent-restore-error", Input: key + mode, What: err.Error(), Replay: obj{"kind": "c08", "src": srcs[i]}})
+					} else if buf.String() != srcs[i] {
+						c.Fail(Finding{Sig: "transparent-bytes-differ", Input: key + mode, What: "gotypes: " + diffAt(src, buf.Bytes()) + "\nsource:\n" + srcs[i], Replay: obj{"kind": "c08", "src": srcs[i]}})
+					}
+					c.Eval(key+mode, true)
+				}
 			}
 		} else {
 			c.Add("sources_not_type_correct", 1)
